@@ -22,9 +22,9 @@ var c05Names = []string{"a", "b", "c", "d"}
 // c05Ent is one entry of a seed tree description (applied in order to both trees).
 type c05Ent struct {
 	P    string `json:"p"`              // path relative to the tree root
-	K    string `json:"k"`              // dir | file | sym | hard | fill
+	K    string `json:"k"`              // dir | file | sym | hard | fill | sock | fifo | chr | blk (special files: mknod, device number 0:0)
 	Data string `json:"data,omitempty"` // file content
-	Mode uint32 `json:"mode,omitempty"` // os.FileMode bits (perm + setuid/setgid/sticky), dir and file
+	Mode uint32 `json:"mode,omitempty"` // os.FileMode bits (perm + setuid/setgid/sticky): dir, file and special files
 	T    string `json:"t,omitempty"`    // sym: link text (relative to the root when TAbs); hard: source path
 	TAbs bool   `json:"tabs,omitempty"` // sym: the link text is <root>/<T>
 	// attributes the entry ALREADY has on disk before the first operation (applied with package os to both trees
@@ -83,6 +83,18 @@ func c05LinkText(root, t string) string {
 	return filepath.Dir(root) + t
 }
 
+// c05SpecialKinds are the entry kinds that are neither directories, regular files nor links: unix sockets, fifos,
+// character and block devices.  They are created with mknod(2) — a socket node made so is the same kind of inode a
+// bind(2) leaves behind — and the device nodes carry the device number 0:0, which no driver answers to: opening one
+// fails (ENXIO, or EACCES on a nodev mount) and reaches nothing outside the scratch file system.
+var c05SpecialKinds = map[string]uint32{"sock": syscall.S_IFSOCK, "fifo": syscall.S_IFIFO, "chr": syscall.S_IFCHR, "blk": syscall.S_IFBLK}
+
+var c05SpecialOrder = []string{"sock", "fifo", "chr", "blk"}
+
+const c05SpecialMask = os.ModeSocket | os.ModeNamedPipe | os.ModeDevice | os.ModeCharDevice
+
+func c05IsSpecial(e c05Ent) bool { _, ok := c05SpecialKinds[e.K]; return ok }
+
 // c05Build applies a seed tree description under root (which must exist and be empty) and ages
 // every non-symlink entry, so that "recent" modification times are those the operations produce.
 // Attributes an entry is to have ALREADY (owner, times) are applied last, with package os, to whatever exists.
@@ -111,6 +123,10 @@ func c05Build(root string, tree []c05Ent) {
 			os.Symlink(t, p)
 		case "hard":
 			os.Link(c05Join(root, e.T), p)
+		case "sock", "fifo", "chr", "blk":
+			if syscall.Mknod(p, c05SpecialKinds[e.K]|0o600, 0) == nil {
+				os.Chmod(p, os.FileMode(e.Mode))
+			}
 		case "fill":
 			c05Fill(p, e.N, e.L)
 		}
@@ -126,7 +142,7 @@ func c05Build(root string, tree []c05Ent) {
 			if e.GID != nil {
 				g = *e.GID
 			}
-			if os.Lchown(p, int(u), int(g)) == nil && (e.K == "dir" || e.K == "file") {
+			if os.Lchown(p, int(u), int(g)) == nil && (e.K == "dir" || e.K == "file" || c05IsSpecial(e)) {
 				os.Chmod(p, os.FileMode(e.Mode)) // the kernel drops setuid/setgid on a change of owner
 			}
 		}
@@ -291,8 +307,8 @@ func c05Atime(fi os.FileInfo) time.Time {
 }
 
 // c05Clone makes dst (a directory that is emptied first) an exact copy of src: kinds, modes, owners, contents (large
-// files as sparse files), link texts (absolute texts under src are re-based), hard-link groups, access and
-// modification times.
+// files as sparse files), link texts (absolute texts under src are re-based), hard-link groups, special files (kind and
+// device number), access and modification times.
 func c05Clone(src, dst string) error {
 	ents, _ := os.ReadDir(dst)
 	for _, e := range ents {
@@ -355,6 +371,17 @@ func c05Clone(src, dst string) error {
 			own(q, fi)
 			note(os.Chmod(q, fi.Mode()))
 			note(os.Chtimes(q, c05Atime(fi), fi.ModTime()))
+		default: // socket, fifo, device node
+			st := fi.Sys().(*syscall.Stat_t)
+			if first, ok := inodes[st.Ino]; ok {
+				note(os.Link(first, q))
+				return nil
+			}
+			inodes[st.Ino] = q
+			note(syscall.Mknod(q, st.Mode&syscall.S_IFMT|0o600, int(st.Rdev)))
+			own(q, fi)
+			note(os.Chmod(q, fi.Mode()))
+			note(os.Chtimes(q, c05Atime(fi), fi.ModTime()))
 		}
 		return nil
 	})
@@ -410,6 +437,8 @@ func c05Shape(root, rel string) (shape string, viaLink bool) {
 				case !st.IsDir():
 					return "file-where-dir-expected-via-symlink", true
 				}
+			case fi.Mode()&c05SpecialMask != 0:
+				return "special-file-where-dir-expected", viaLink
 			case !fi.IsDir():
 				return "file-where-dir-expected", viaLink
 			}
@@ -426,6 +455,8 @@ func c05Shape(root, rel string) (shape string, viaLink bool) {
 				return "dangling-symlink", true
 			case st.IsDir():
 				return "dir-symlink", true
+			case st.Mode()&c05SpecialMask != 0:
+				return "special-file-symlink", true
 			default:
 				return "file-symlink", true
 			}
@@ -436,6 +467,14 @@ func c05Shape(root, rel string) (shape string, viaLink bool) {
 			} else {
 				shape = "non-empty-dir"
 			}
+		case fi.Mode()&os.ModeSocket != 0:
+			shape = "socket"
+		case fi.Mode()&os.ModeNamedPipe != 0:
+			shape = "fifo"
+		case fi.Mode()&os.ModeCharDevice != 0:
+			shape = "char-device"
+		case fi.Mode()&os.ModeDevice != 0:
+			shape = "block-device"
 		default:
 			if st, ok := fi.Sys().(*syscall.Stat_t); ok && st.Nlink > 1 {
 				shape = "hardlinked-file"
@@ -454,6 +493,8 @@ func c05Shape(root, rel string) (shape string, viaLink bool) {
 type c05Gen struct {
 	rng   *rand.Rand
 	rootB string
+	pmode string // abs | rel: the path mode of the sequence (decides which spellings of a path are generated)
+	plain bool   // the operation being generated gets canonical spellings only (see spell)
 }
 
 type c05Entry struct {
@@ -507,7 +548,8 @@ func (g *c05Gen) plainPath(ents []c05Entry) string {
 	return strings.Join(comps, "/")
 }
 
-// pick returns an entry of the wanted kind when there is one (kind: "dir", "file", "sym", "dirsym", "dangling").
+// pick returns an entry of the wanted kind when there is one (kind: "dir", "file", "sym", "dirsym", "dangling",
+// "nonempty", "special" = socket / fifo / device node).
 func (g *c05Gen) pick(ents []c05Entry, kind string) (string, bool) {
 	var c []string
 	for _, e := range ents {
@@ -528,6 +570,8 @@ func (g *c05Gen) pick(ents []c05Entry, kind string) (string, bool) {
 					ok = err != nil
 				}
 			}
+		case "special":
+			ok = e.mode&c05SpecialMask != 0
 		case "nonempty":
 			if e.mode.IsDir() {
 				l, _ := os.ReadDir(c05Join(g.rootB, e.rel))
@@ -544,8 +588,7 @@ func (g *c05Gen) pick(ents []c05Entry, kind string) (string, bool) {
 	return c[g.rng.Intn(len(c))], true
 }
 
-// path returns an operation path; a few per cent are written in a non-canonical form ("p/", "./p",
-// "x/../p" with x not a symbolic link, "p//q", "p/.").
+// path returns an operation path (see spell for the spellings).
 func (g *c05Gen) path(ents []c05Entry) string {
 	p := g.plainPath(ents)
 	// bias towards the interesting kinds
@@ -572,31 +615,102 @@ func (g *c05Gen) path(ents []c05Entry) string {
 		if q, ok := g.pick(ents, "file"); ok {
 			p = q + "/" + g.name()
 		}
+	case x < 27: // a socket, fifo or device node itself, or (one time in four) used as a directory
+		if q, ok := g.pick(ents, "special"); ok {
+			p = q
+			if g.rng.Intn(4) == 0 {
+				p += "/" + g.name()
+			}
+		}
 	}
-	// Non-canonical spellings (trailing slash, "." and ".." segments, doubled slashes) are outside the
-	// property's quantifier (names of a small universe, absolute or working-directory-relative); they
-	// are generated only when VERIF_C05_NONCANON=1 (the divergences they expose are listed in DESIGN.md).
-	if os.Getenv("VERIF_C05_NONCANON") != "1" || g.rng.Intn(100) >= 5 {
+	return g.spell(p, ents)
+}
+
+// c05NonCanonAll: VERIF_C05_NONCANON=1 generates non-canonical spellings everywhere (see spell).
+func c05NonCanonAll() bool { return os.Getenv("VERIF_C05_NONCANON") == "1" }
+
+// spell returns p as it is or, some of the time, in a NON-CANONICAL spelling: trailing slash, "." and ".."
+// segments (".." also after a symbolic link to a directory, where lexical cleaning and the kernel disagree),
+// doubled slashes.
+//
+//   - ABSOLUTE paths without a server working directory (path mode abs): generated by default, one path in eight.
+//     The server hands such a path to the kernel as written, so every operation must behave like package os on
+//     the same spelling.
+//   - working-directory-relative paths (path mode rel): only with VERIF_C05_NONCANON=1.  The unchanged server
+//     path.Join's them onto the working directory, which cleans them lexically — a difference the package's own
+//     tests pin down (TestServer_toLocalPath) and DESIGN.md lists; see classify, key workdir/path-cleaned-lexically.
+//   - RemoveAll and Walk (g.plain): only with VERIF_C05_NONCANON=1 in either mode.  os.RemoveAll normalises its
+//     argument itself (strips trailing slashes, refuses a final "."), Client.RemoveAll does not: listed in DESIGN.md
+//     as an observation outside the property's quantifier (keys removeall/non-canonical-path, …/trailing-slash).
+//     Client.Walk and filepath.Walk both Join the root with the names they list — lexically, so below "link/.." both
+//     walk the wrong directory — and differ only in where the FileInfo of a step comes from (listing / lstat).
+//
+// Operations whose spelled path leaves the twin tree are not run (c05Run.escapes).
+func (g *c05Gen) spell(p string, ents []c05Entry) string {
+	all := c05NonCanonAll()
+	prob := 0
+	switch {
+	case g.plain && !all:
+	case g.pmode == "abs":
+		prob = 12
+	case all:
+		prob = 5
+	}
+	if prob == 0 || g.rng.Intn(100) >= prob {
 		return p
 	}
-	switch g.rng.Intn(5) {
+	slashAt := func(with string) string { // replaces one "/" of p by with
+		var at []int
+		for i := 1; i < len(p); i++ {
+			if p[i] == '/' {
+				at = append(at, i)
+			}
+		}
+		if len(at) == 0 {
+			return p + with
+		}
+		i := at[g.rng.Intn(len(at))]
+		return p[:i] + with + p[i+1:]
+	}
+	switch g.rng.Intn(11) {
 	case 0:
 		return p + "/"
 	case 1:
 		return "./" + p
-	case 2:
-		first := g.name()
-		if fi, err := os.Lstat(c05Join(g.rootB, first)); err == nil && fi.Mode()&os.ModeSymlink != 0 {
-			return p // ".." is never taken through a symbolic link: operations stay inside the scratch tree
-		}
-		return first + "/../" + p
+	case 2: // "x/../p": x anything — a directory, a file, a missing name, a symbolic link
+		return g.name() + "/../" + p
 	case 3:
-		if i := strings.IndexByte(p, '/'); i > 0 {
-			return p[:i] + "//" + p[i+1:]
-		}
-		return p
-	default:
+		return slashAt("//")
+	case 4:
 		return p + "/."
+	case 5: // ".." after a symbolic link to a directory: the parent of the link's TARGET
+		if q, ok := g.pick(ents, "dirsym"); ok {
+			return q + "/../" + g.name()
+		}
+		return g.name() + "/../" + p
+	case 6:
+		if q, ok := g.pick(ents, "dirsym"); ok {
+			return q + "/.."
+		}
+		return p + "/."
+	case 7:
+		return slashAt("/./")
+	case 8: // "e/../base(e)" over an existing entry of any kind
+		if len(ents) > 0 {
+			e := ents[g.rng.Intn(len(ents))].rel
+			return e + "/../" + path.Base(e)
+		}
+		return p + "/"
+	case 9: // trailing slash on a symbolic link (to a directory, to a file, dangling, looping)
+		if q, ok := g.pick(ents, "sym"); ok {
+			return q + "/"
+		}
+		return p + "/"
+	default: // trailing slash on something that is not a directory
+		if q, ok := g.pick(ents, []string{"file", "special"}[g.rng.Intn(2)]); ok {
+			return q + "/"
+		}
+		return p + "/"
 	}
 }
 
@@ -712,7 +826,9 @@ func (g *c05Gen) next() c05Op {
 	}
 	switch k {
 	case "mkdir", "mkdirall", "remove", "rmdir", "removeall":
+		g.plain = k == "removeall"
 		op.P = g.path(ents)
+		g.plain = false
 		if k == "mkdir" && g.rng.Intn(100) < 45 {
 			op.P = g.fresh(ents)
 		}
@@ -767,7 +883,9 @@ func (g *c05Gen) next() c05Op {
 		}
 	case "getwd":
 	case "stat", "lstat", "readdir", "readdirctx", "walk", "realpath", "statvfs":
+		g.plain = k == "walk"
 		op.P = readRoot()
+		g.plain = false
 		if k == "walk" && g.rng.Intn(3) == 0 {
 			op.P = "."
 		}
@@ -818,7 +936,8 @@ func (g *c05Gen) next() c05Op {
 }
 
 // seedTree draws a small random tree description: directories, files (one in four with an unusual mode),
-// relative / absolute / dangling / looping symbolic links and hard links, nesting <= 3.
+// relative / absolute / dangling / looping symbolic links, hard links, and special files (unix sockets, fifos,
+// character and block device nodes), nesting <= 3.
 func c05SeedTree(rng *rand.Rand) []c05Ent {
 	n := rng.Intn(11)
 	var tree []c05Ent
@@ -837,7 +956,11 @@ func c05SeedTree(rng *rand.Rand) []c05Ent {
 		}
 		depth := strings.Count(p, "/") + 1
 		e := c05Ent{P: p}
-		switch x := rng.Intn(100); {
+		switch x := rng.Intn(114); {
+		case x >= 100: // a unix socket, a fifo, a character or a block device node (one entry in eight)
+			e.K = c05SpecialOrder[rng.Intn(len(c05SpecialOrder))]
+			e.Mode = uint32([]os.FileMode{0o644, 0o600, 0o755, 0o666, 0, 0o660 | os.ModeSetgid}[rng.Intn(6)])
+			files = append(files, p) // may get hard links like a regular file
 		case x < 35 && depth < 3:
 			e.K = "dir"
 			e.Mode = uint32([]os.FileMode{0o755, 0o755, 0o700, 0o777 | os.ModeSticky, 0o555}[rng.Intn(5)])
@@ -871,7 +994,7 @@ func c05SeedTree(rng *rand.Rand) []c05Ent {
 			e.T = files[rng.Intn(len(files))]
 		}
 		// attributes the entry already has before the first operation: boundary times, owners, a sparse size
-		if e.K == "dir" || e.K == "file" {
+		if e.K == "dir" || e.K == "file" || c05IsSpecial(e) {
 			if rng.Intn(100) < 20 {
 				m := c05GenTime(rng)
 				e.MT = &m
